@@ -12,6 +12,7 @@ for _b in (8, 16, 32, 64, 128):
     INT_RANGE["u%d" % _b] = (0, (1 << _b) - 1)
 INT_RANGE["isize"] = INT_RANGE["i64"]
 INT_RANGE["usize"] = INT_RANGE["u64"]
+INT_RANGE["char"] = (0, 0x10FFFF)      # `u8 as char`: the code point
 
 
 class Unknown(Exception):
